@@ -28,7 +28,7 @@ from .registry import (
 
 import os as _os
 
-FEAS_TIMEOUT_MS = int(_os.environ.get("PYVC_FEAS_MS", "2500"))
+FEAS_TIMEOUT_MS = int(_os.environ.get("PYVC_FEAS_MS", "1200"))
 FEAS_RLIMIT = int(_os.environ.get("PYVC_FEAS_RLIMIT", "2500000"))
 OBL_TIMEOUT_MS = int(_os.environ.get("PYVC_OBL_MS", "15000"))
 
@@ -371,7 +371,7 @@ class Run:
         self.solver.set("timeout", FEAS_TIMEOUT_MS)
         self.solver_qf = z3.Solver()  # quantifier-free part of the path condition: fast, sound for pruning
         self.solver_qf.set("rlimit", 5 * FEAS_RLIMIT)
-        self.solver_qf.set("timeout", 2 * FEAS_TIMEOUT_MS)
+        self.solver_qf.set("timeout", FEAS_TIMEOUT_MS)
         self.pc = []
         self.heap = H.Heap()
         self.alloc0 = z3.Int("$alloc0")
@@ -986,7 +986,14 @@ class Run:
             return self.is_none(x)
         if isinstance(a.ty, T.Opt) or isinstance(b.ty, T.Opt):
             if isinstance(a.ty, T.Opt) and isinstance(b.ty, T.Opt) and a.ty == b.ty:
-                raise Reject("== between two optionals")
+                na, nb = T.opt_is_none(a.ty, a.z), T.opt_is_none(b.ty, b.z)
+                ia, ib = SV(a.ty.inner, T.opt_get(a.ty, a.z)), SV(b.ty.inner, T.opt_get(b.ty, b.z))
+                if isinstance(a.ty.inner, (T.Val, T.Ref)) and getattr(self, "merge_depth", 0) == 0 and not getattr(self, "no_fork", False):
+                    # None == None, None != x; otherwise the class's own __eq__ on the two values
+                    if self.choose(z3.Or(na, nb)):
+                        return z3.And(na, nb)
+                    return self.eq_values(ia, ib)
+                return z3.Or(z3.And(na, nb), z3.And(z3.Not(na), z3.Not(nb), ia.z == ib.z))
             o, x = (a, b) if isinstance(a.ty, T.Opt) else (b, a)
             inner = SV(o.ty.inner, T.opt_get(o.ty, o.z))
             return z3.And(z3.Not(T.opt_is_none(o.ty, o.z)), self.eq_values(inner, x) if o is a else self.eq_values(x, inner))
